@@ -108,3 +108,28 @@ def inv_c04(c, require=True, ensure=True, u="self.u_best", with_fsd=True):
         if ensure:
             c.ens(k, v, top=(k != "c04_log_maps_back"), props=["C04", "C19"])
     return cl
+
+
+def FEAS(u):
+    return "feasx(invt(pt(%s)))" % u
+
+
+LOGFEAS = "forall(%s.Xn + 1, lambda i: feasx(invt(row(%s.X, i))))" % (FLG, FLG)
+HU = "self.iteration_history['u']"
+HISTFEAS = "forall(rows(%s), lambda k: feasx(invt(row(%s, k))))" % (HU, HU)
+H_ALIGNED = ("rows(self.iteration_history['fval']) == rows(%s) and rows(self.iteration_history['fsd']) == rows(%s) and "
+             "rows(self.iteration_history['yval']) == rows(%s)" % (HU, HU, HU))
+
+
+def inv_c02(c, require=True, ensure=True, u_best=True, u=True):
+    cl = {"c02_log_feasible": LOGFEAS}
+    if u_best:
+        cl["c02_incumbent_feasible"] = FEAS("self.u_best")
+    if u:
+        cl["c02_current_point_feasible"] = FEAS("self.u")
+    for k, v in cl.items():
+        if require:
+            c.req(k, v, props=["C02"])
+        if ensure:
+            c.ens(k, v, top=True, props=["C02"])
+    return cl
